@@ -5,7 +5,8 @@
       session 12 (did not: absent).  Then session 10 stores a testament whose
       publish options ask for [disclose_me] and is dropped: the testament is
       published by the META session, whose identity (id 1, authrole "trusted",
-      no authid) is what 11 sees — never the departed client's.
+      no authid) is what 11 sees — never the departed client's; the same
+      when 10 is killed through wamp.session.kill ([killed]: a CALL step).
     - [InvEx12]: caller identity in an INVOCATION through the caller's
       [disclose_me] (callee 14 announced caller_identification) and through
       the registration's [disclose_caller] (callee 15); a plain call carries
@@ -60,6 +61,18 @@ Module EvEx.
     [(11, REvent 1 8 [("publisher", vid meta_id); ("publisher_authrole", vstr "trusted")] [vnat 9] []);
      (12, REvent 1 8 [] [vnat 9] [])].
   Proof. split; vm_compute; reflexivity. Qed.
+  Definition kill10 : op := OMsg 13 (CCall 1 [] "wamp.session.kill" [vid 10] []) 0.
+  Definition pre8 : list op := pre7 ++ [OJoin 13 false hello_pub].
+
+  (** the same testament when 10 is KILLED (wamp.session.kill called by 13):
+      in that CALL step the EVENT shows the meta session — neither the caller
+      13 nor the victim 10 *)
+  Lemma killed :
+    snd (step (fst (run (init_realm cfgd) pre8)) kill10) =
+    [(13, RResult 1 [] [] []); (10, RGoodbye [] e_close_normal);
+     (11, REvent 1 9 [("publisher", vid meta_id); ("publisher_authrole", vstr "trusted")] [vnat 9] []);
+     (12, REvent 1 9 [] [vnat 9] [])].
+  Proof. vm_compute. reflexivity. Qed.
 End EvEx.
 
 Module InvEx12.
